@@ -10,13 +10,19 @@ import numpy as np
 from .choices import Choices
 
 BASIC = ["sum", "size", "count", "mean", "min", "max", "first", "last"]
-COMPOSITE = ["var", "std", "median", "quantile", "apply", "agg"]
+# (density is left out: it needs margins, and add_row_margin imports pandas.core.reshape.util,
+#  which the installed pandas no longer has -- every margins call raises ModuleNotFoundError in
+#  this environment, after the kernels have run; margins are therefore drawn rarely)
+COMPOSITE = ["var", "std", "median", "quantile", "apply", "agg", "ratio", "subset_ratio"]
 ROWWISE = ["cumsum", "cummin", "cummax", "cumcount", "rolling_sum", "rolling_mean", "rolling_min", "rolling_max", "shift", "diff", "ema", "ema_timed"]
-SELECT = ["head", "tail", "nth", "groups", "key_count", "result_index", "ngroups", "group_nearby_members"]
+SELECT = ["head", "tail", "nth", "groups", "key_count", "result_index", "ngroups", "group_nearby_members", "crosstab", "value_counts"]
 FAMILIES = {"basic": BASIC, "composite": COMPOSITE, "rowwise": ROWWISE, "select": SELECT}
 
 # operations whose result legitimately depends on summation order (tolerance applies)
-SUM_LIKE = {"sum", "mean", "var", "std", "agg"}
+SUM_LIKE = {"sum", "mean", "var", "std", "agg", "ratio", "subset_ratio", "density", "crosstab"}
+# quotients of aggregates: no absolute rounding bound is meaningful, so they run on exactly
+# summable data only (sanitize) and are compared exactly
+DIVIDING = {"ratio", "subset_ratio", "density"}
 # raw representation-level attributes: compared as mappings, not by position
 UNORDERED = {"result_index", "key_count"}
 # layout-changing operations on chunked keys (for C13 coverage / probes)
@@ -61,6 +67,28 @@ def gen_op(s: Choices, family: str, ds, mask_kinds=("none", "bool", "slice", "po
             op["funcs"] = [["sum", "max"], ["min", "count"], ["mean", "first"], ["last", "sum"], "sum", "max", "mean"][s.draw(7)]
             if isinstance(op["funcs"], list):
                 op["cols"] = [op["cols"][0]]
+        if name not in ("var", "std") and not op["transform"] and s.chance(1, 16):
+            # 'All' rows; for several keys also for chosen levels only
+            nk = len(ds["key_kinds"])
+            op["margins"] = True if nk == 1 else [True, [0], [1]][s.draw(3)]
+    elif name in ("ratio", "subset_ratio", "density"):
+        op["cols"] = [op["cols"][0]]
+        op["mask"] = gen.gen_mask(s, ds, ("none", "bool", "bool") if name != "ratio" else mask_kinds)
+        op["margins"] = s.chance(1, 8)
+        if name != "density":
+            op["agg_func"] = ["sum", "mean", "max"][s.draw(3)]
+        else:
+            op["sizes"] = s.chance(1, 3)  # density of the group sizes (values=None)
+        if name == "subset_ratio":
+            op["subset"] = [bool(s.draw(2)) for _ in range(ds["n"])]
+    elif name in ("crosstab", "value_counts"):
+        op["cols"] = [op["cols"][0]]
+        op["mask"] = gen.gen_mask(s, ds, ("none", "bool"))
+        if name == "crosstab":
+            op["aggfunc"] = [None, "sum", "mean", "max", "count"][s.draw(5)]  # None: sizes
+            op["margins"] = [False, False, False, False, True, "row", "column"][s.draw(7)]
+        else:
+            op["normalize"] = s.chance(1, 3)
     elif name in ("median", "quantile", "apply"):
         op["transform"] = name != "quantile" and s.chance(1, 4)
         op["mask"] = gen.gen_mask(s, ds, tuple(k for k in mask_kinds if k in ("none", "bool")))
@@ -98,7 +126,47 @@ def gen_op(s: Choices, family: str, ds, mask_kinds=("none", "bool", "slice", "po
     elif name == "group_nearby_members":
         op["max_diff"] = 1 + s.draw(3)
         op["cols"] = [op["cols"][0]]
+    if s.chance(1, 5):
+        _to_facade(op, s)
     return op
+
+
+def _to_facade(op, s):
+    """Route the operation through the pandas-style facade (api.SeriesGroupBy /
+    DataFrameGroupBy wrapped around the GroupBy under test) where the facade can express
+    it; options the facade does not have are set to its defaults."""
+    name = op["op"]
+    if name in BASIC or name in ("var", "std"):
+        op["transform"], op["observed_only"] = False, True
+        if name not in ("sum", "mean", "min", "max"):
+            op.pop("margins", None)
+    elif name == "agg":
+        op.pop("margins", None)
+        if not isinstance(op["funcs"], str):
+            return
+        op["transform"], op["observed_only"] = False, True
+        op.pop("mask", None)  # facade agg(str) takes no mask
+    elif name in ("median", "apply"):
+        op["transform"] = False
+    elif name == "quantile":
+        pass
+    elif name in ("cumsum", "cummin", "cummax"):
+        op.pop("mask", None)
+        op["skip_na"] = True
+    elif name.startswith("rolling_"):
+        if op["min_periods"] is None:
+            op["min_periods"] = op["window"]
+    elif name in ("ema", "ema_timed"):
+        pass
+    elif name in ("head", "tail", "nth"):
+        op["keep_input_index"] = False
+    elif name in ("groups", "ngroups"):
+        pass
+    else:
+        return
+    op["via"] = "api"
+    # column selection on a frame facade: none / gb[col] / gb[[cols]]
+    op["api_select"] = s.draw(3)
 
 
 def op_mask(op):
@@ -112,12 +180,122 @@ def build_times(ds, op):
     return t.view("datetime64[ns]")
 
 
-def call_op(gb, op, values, mask, ds, class_form_keys=None, times=None):
-    """Execute `op` on GroupBy `gb` (or in class form on raw keys)."""
+def _pandas_col(v, name=None):
+    """A value column as something the facade accepts inside a frame (zero-copy)."""
+    import pandas as pd
+    import polars as pl
+    import pyarrow as pa
+
+    if isinstance(v, pd.Series):
+        return v
+    if isinstance(v, np.ndarray) and v.ndim == 1:
+        return pd.Series(v, name=name, copy=False)
+    if isinstance(v, pl.Series):
+        v = v.to_arrow()
+    if isinstance(v, pa.Array):
+        v = pa.chunked_array([v])
+    if isinstance(v, pa.ChunkedArray):
+        return pd.Series(pd.arrays.ArrowExtensionArray(v), name=name)
+    return None
+
+
+def facade_for(target, values, wrappers=None, tag=None):
+    """SeriesGroupBy / DataFrameGroupBy around `target` for these value objects, or None
+    when the facade cannot hold them.  `wrappers` (a list owned by the simulated client)
+    keeps facades alive and reuses them, the way `gb = df.groupby_fast(...)` is reused."""
+    import pandas as pd
+    import polars as pl
+    from groupby_lib.groupby.api import DataFrameGroupBy, SeriesGroupBy
+
+    if wrappers is not None:
+        for t, v, tg, w in wrappers:
+            if t is target and v is values and tg == tag:
+                return w
+    w = None
+    if isinstance(values, (pd.Series, pl.Series)):
+        w = SeriesGroupBy(values, grouper=target)
+    elif isinstance(values, (pd.DataFrame, pl.DataFrame)):
+        w = DataFrameGroupBy(values, grouper=target)
+    elif isinstance(values, dict):
+        cols = {k: _pandas_col(v, k) for k, v in values.items()}
+        if all(c is not None for c in cols.values()) and len({len(c) for c in cols.values()}) == 1:
+            ixs = [c.index for c in cols.values()]
+            if all(ix.equals(ixs[0]) for ix in ixs[1:]):
+                w = DataFrameGroupBy(pd.DataFrame(cols, copy=False), grouper=target)
+    else:
+        col = _pandas_col(values)
+        if col is not None:
+            w = SeriesGroupBy(col, grouper=target)
+    if w is not None and wrappers is not None:
+        wrappers.append((target, values, tag, w))
+    return w
+
+
+def _call_facade(w, op, mask, ds, times):
+    from groupby_lib.groupby.api import DataFrameGroupBy
+
+    name = op["op"]
+    if isinstance(w, DataFrameGroupBy) and op.get("api_select"):
+        cols = list(w.value_columns)
+        w = w[cols[0]] if op["api_select"] == 1 else w[cols]
+    if name == "size":
+        return w.size(mask=mask)
+    if name in ("sum", "mean", "min", "max"):
+        return getattr(w, name)(mask=mask, margins=op.get("margins", False))
+    if name in BASIC:
+        return getattr(w, name)(mask=mask)
+    if name in ("var", "std"):
+        return getattr(w, name)(ddof=op["ddof"], mask=mask)
+    if name == "agg":
+        return w.agg(op["funcs"])
+    if name == "median":
+        return w.median(mask=mask)
+    if name == "quantile":
+        return w.quantile(op["q"], mask=mask)
+    if name == "apply":
+        fn = {"spread": _spread, "first_two": _first_two, "raises": _raises, "demean": _demean}[op["func"]]
+        return w.apply(fn, mask)
+    if name in ("cumsum", "cummin", "cummax"):
+        return getattr(w, name)()
+    if name.startswith("rolling_"):
+        return getattr(w.rolling(op["window"], op["min_periods"]), name[len("rolling_"):])(mask=mask, index_by_groups=op.get("ibg", False))
+    if name == "ema":
+        return w.ema(alpha=op["alpha"], mask=mask, index_by_groups=op.get("ibg", False))
+    if name == "ema_timed":
+        return w.ema(halflife=op["halflife"], times=build_times(ds, op) if times is None else times, mask=mask, index_by_groups=op.get("ibg", False))
+    if name in ("head", "tail", "nth"):
+        return getattr(w, name)(op["n"])
+    if name in ("groups", "ngroups"):
+        return getattr(w, name)
+    raise AssertionError(name)
+
+
+def _denominator(ds, op):
+    """A second value column with the same nullity as the first: |x| + 1."""
+    from . import gen
+
+    a = gen.col_array(ds["cols"][op["cols"][0]])
+    if a.dtype.kind == "f":
+        return np.abs(a) + a.dtype.type(1)
+    if a.dtype.kind in "iu":
+        return np.abs(a) + a.dtype.type(1)
+    return a.copy()
+
+
+def call_op(gb, op, values, mask, ds, class_form_keys=None, times=None, wrappers=None, wrapper_tag=None, raw_keys=None):
+    """Execute `op` on GroupBy `gb` (or in class form on raw keys, or through the
+    pandas-style facade wrapped around `gb` when the op says so)."""
     from groupby_lib.groupby.core import GroupBy
 
     name = op["op"]
     target = gb
+    if op.get("via") == "api" and class_form_keys is None:
+        with warnings.catch_warnings():
+            warnings.simplefilter("ignore")
+            with np.errstate(all="ignore"):
+                w = facade_for(gb, values, wrappers, wrapper_tag)
+                if w is not None:
+                    return _call_facade(w, op, mask, ds, times)
 
     def m(method, *a, **k):
         if class_form_keys is not None:
@@ -127,14 +305,42 @@ def call_op(gb, op, values, mask, ds, class_form_keys=None, times=None):
     with warnings.catch_warnings():
         warnings.simplefilter("ignore")
         with np.errstate(all="ignore"):
+            mg = {"margins": op["margins"]} if op.get("margins") else {}
             if name == "size":
-                return m("size", mask=mask, transform=op["transform"], observed_only=op["observed_only"])
+                return m("size", mask=mask, transform=op["transform"], observed_only=op["observed_only"], **mg)
             if name in BASIC:
-                return m(name, values, mask=mask, transform=op["transform"], observed_only=op["observed_only"])
+                return m(name, values, mask=mask, transform=op["transform"], observed_only=op["observed_only"], **mg)
             if name in ("var", "std"):
                 return m(name, values, mask=mask, transform=op["transform"], ddof=op["ddof"], observed_only=op["observed_only"])
             if name == "agg":
-                return m("agg", values, op["funcs"], mask=mask, transform=op["transform"], observed_only=op["observed_only"])
+                return m("agg", values, op["funcs"], mask=mask, transform=op["transform"], observed_only=op["observed_only"], **mg)
+            if name == "ratio":
+                return m("ratio", values, _denominator(ds, op), mask=mask, agg_func=op["agg_func"], margins=op["margins"])
+            if name == "subset_ratio":
+                return m("subset_ratio", values, np.array(op["subset"], dtype=bool), global_mask=mask, agg_func=op["agg_func"], margins=op["margins"])
+            if name == "density":
+                return m("density", None if op["sizes"] else values, mask=mask, margins=op["margins"])
+            if name in ("crosstab", "value_counts"):
+                from groupby_lib.groupby import core as _core
+
+                keys = class_form_keys if class_form_keys is not None else raw_keys
+                if keys is None:
+                    raise NotImplementedError("no raw keys at hand for a module-level function")
+                klist = list(keys.values()) if isinstance(keys, dict) else (list(keys) if isinstance(keys, list) else [keys])
+                if name == "value_counts":
+                    return _core.value_counts(klist[0] if len(klist) == 1 else klist, normalize=op["normalize"], mask=mask)
+                index, columns = (klist[0], klist[1]) if len(klist) >= 2 else (klist[0], klist[0])
+                import pyarrow as pa
+
+                if any(isinstance(k_, (pa.Array, pa.ChunkedArray)) for k_ in klist) and any(c_ < 0 for kc_ in ds["key_codes"] for c_ in kc_):
+                    # several keys take the Arrow factorizer, for which a float NaN inside an Arrow
+                    # container is a value, not a null (Arrow's own convention; the single-key chunked
+                    # route reads it as null): which is meant is a container matter (C12), not a
+                    # strategy matter, so null keys in Arrow containers are kept out of crosstab
+                    raise NotImplementedError("null keys inside Arrow containers in a several-key grouping")
+                if op["aggfunc"] is None:
+                    return _core.crosstab(index, columns, mask=mask, margins=op["margins"])
+                return _core.crosstab(index, columns, values, aggfunc=op["aggfunc"], mask=mask, margins=op["margins"])
             if name == "median":
                 return m("median", values, mask=mask, transform=op["transform"])
             if name == "quantile":
@@ -197,7 +403,7 @@ def tolerance(op, ds, rows):
             u = 2.0**-24 if col["dtype"] == "float32" else 2.0**-53
             s1 = float(np.abs(sel).sum())
             s2 = float((sel**2).sum())
-            if name in ("sum", "mean", "agg"):
+            if name in ("sum", "mean", "agg", "crosstab"):
                 t = 4 * n * u * s1
             elif name == "var":
                 t = 8 * n * u * (s2 + s1 * s1)
@@ -225,6 +431,9 @@ def sanitize(ds, op):
     for c, col in enumerate(ds["cols"]):
         if c in op["cols"] and col["dtype"] == "int64" and 1 in col["idx"]:
             col = dict(col, idx=[0 if i == 1 else i for i in col["idx"]])
+            changed = True
+        if c in op["cols"] and op["op"] in DIVIDING and col.get("arb"):
+            col = dict(col, arb=False)  # quotients: exactly summable data only
             changed = True
         cols.append(col)
     if not changed:
